@@ -66,7 +66,7 @@ func C04(run *vf.Run) {
 	if run.Thorough() {
 		fams = []fam{
 			{"cache", cacheCfg(3, 1, "byValue", true), eng.ProjOpts{}},
-			{"acts", engineCfg("acts", 3, 1, "{1, 2}", `{"On"}`), eng.ProjOpts{}},
+			{"acts", engineCfg("acts", 2, 1, "{1, 2}", `{"On"}`), eng.ProjOpts{}}, // three rules: 1.3 M scenarios x 30 runs each (order x repetition) does not fit the memory and time of this tier; C09 thorough covers three rules
 			{"select", engineCfg("select", 3, 0, "{2}", `{"On"}`), eng.ProjOpts{FoldMDKeys: true}},
 			{"flow", engineCfg("flow", 2, 1, "{1, 2, 5}", `{"On"}`), eng.ProjOpts{}},
 		}
